@@ -57,8 +57,9 @@ class Plan:
     def op_A(self, seqs, nthreads, typ, gpo, gpe, tgpe):
         self.ops.append(['A', str(nthreads), str(typ), fhex(gpo), fhex(gpe), fhex(tgpe), str(len(seqs))] + [hx(s) for s in seqs]); return len(self.ops) - 1
 
-    def op_R(self, slot, path, quiet=1):
-        self.ops.append(['R', str(slot), hx(path) if path else '-', str(quiet)]); return len(self.ops) - 1
+    def op_R(self, slot, path, quiet=1, keep=0):
+        # keep=1: if this read is refused the caller goes on using the object it already had (with world read_fail_keeps)
+        self.ops.append(['R', str(slot), hx(path) if path else '-', str(quiet)] + (['1'] if keep else [])); return len(self.ops) - 1
 
     def op_X(self, slot, nthreads, typ, gpo, gpe, tgpe):
         self.ops.append(['X', str(slot), str(nthreads), str(typ), fhex(gpo), fhex(gpe), fhex(tgpe)]); return len(self.ops) - 1
